@@ -326,10 +326,13 @@ theorem bigint_768_square_run (s : State) (pr pa : Word)
         = val (2 ^ 64) [a0.toNat, a1.toNat, a2.toNat, a3.toNat, a4.toNat, a5.toNat]
           * val (2 ^ 64) [a0.toNat, a1.toNat, a2.toNat, a3.toNat, a4.toNat, a5.toNat] := by
       simp only [val_cons, val_nil]
-      linear_combination 2 ^ 64 * e6.1 + 2 ^ 128 * e8.1 + 2 ^ 192 * e11.1 + 2 ^ 256 * e14 + 2 ^ 192 * e15.1 + 2 ^ 256 * e18.1 + 2 ^ 320 * e23.1 + 2 ^ 384 * e26 + 2 ^ 256 * e27.1 + 2 ^ 320 * e30.1 + 2 ^ 384 * e35.1 + 2 ^ 448 * e40.1 + 2 ^ 512 * e43 + 2 ^ 320 * e44.1 + 2 ^ 384 * e47.1 + 2 ^ 448 * e52.1 + 2 ^ 512 * e57.1 + 2 ^ 576 * e62.1 + 2 ^ 640 * e65 + 2 * (0) + 2 ^ 64 * e67 + 2 ^ 128 * e68 + 2 ^ 192 * e69 + 2 ^ 256 * e70 + 2 ^ 320 * e71 + 2 ^ 384 * e72 + 2 ^ 448 * e73 + 2 ^ 512 * e74 + 2 ^ 576 * e75 + 2 ^ 640 * e76 + 2 ^ 704 * e77 + e78 + 2 ^ 64 * e80 + 2 ^ 128 * e81 + 2 ^ 128 * e83 + 2 ^ 192 * e84 + 2 ^ 256 * e85 + 2 ^ 256 * e87 + 2 ^ 320 * e88 + 2 ^ 384 * e89 + 2 ^ 384 * e91 + 2 ^ 448 * e92 + 2 ^ 512 * e93 + 2 ^ 512 * e95 + 2 ^ 576 * e96 + 2 ^ 640 * e97 + 2 ^ 640 * e99 + 2 ^ 704 * e100
+      linear_combination 2 * (2 ^ 64 * e6.1 + 2 ^ 128 * e8.1 + 2 ^ 192 * e11.1 + 2 ^ 256 * e14 + 2 ^ 192 * e15.1 + 2 ^ 256 * e18.1 + 2 ^ 320 * e23.1 + 2 ^ 384 * e26 + 2 ^ 256 * e27.1 + 2 ^ 320 * e30.1 + 2 ^ 384 * e35.1 + 2 ^ 448 * e40.1 + 2 ^ 512 * e43 + 2 ^ 320 * e44.1 + 2 ^ 384 * e47.1 + 2 ^ 448 * e52.1 + 2 ^ 512 * e57.1 + 2 ^ 576 * e62.1 + 2 ^ 640 * e65) + 2 ^ 64 * e67 + 2 ^ 128 * e68 + 2 ^ 192 * e69 + 2 ^ 256 * e70 + 2 ^ 320 * e71 + 2 ^ 384 * e72 + 2 ^ 448 * e73 + 2 ^ 512 * e74 + 2 ^ 576 * e75 + 2 ^ 640 * e76 + 2 ^ 704 * e77 + e78 + 2 ^ 64 * e80 + 2 ^ 128 * e81 + 2 ^ 128 * e83 + 2 ^ 192 * e84 + 2 ^ 256 * e85 + 2 ^ 256 * e87 + 2 ^ 320 * e88 + 2 ^ 384 * e89 + 2 ^ 384 * e91 + 2 ^ 448 * e92 + 2 ^ 512 * e93 + 2 ^ 512 * e95 + 2 ^ 576 * e96 + 2 ^ 640 * e97 + 2 ^ 640 * e99 + 2 ^ 704 * e100
     have hlt := Nat.mul_lt_mul'' hA hA
     generalize val (2 ^ 64) [a0.toNat, a1.toNat, a2.toNat, a3.toNat, a4.toNat, a5.toNat]
-      * val (2 ^ 64) [a0.toNat, a1.toNat, a2.toNat, a3.toNat, a4.toNat, a5.toNat] = P at key hlt
+      * val (2 ^ 64) [a0.toNat, a1.toNat, a2.toNat, a3.toNat, a4.toNat, a5.toNat] = P at key hlt ⊢
+    generalize val (2 ^ 64) [l78.toNat, t80.val.toNat, t83.val.toNat, t84.val.toNat, t87.val.toNat, t88.val.toNat, t91.val.toNat, t92.val.toNat, t95.val.toNat, t96.val.toNat, t99.val.toNat, t100.val.toNat] = V at key ⊢
+    have := Bool.toNat_le t100.c
+    generalize t100.c.toNat = c at *
     omega
   · intro k hk1 hk2
     simp (disch := (clear * - hk1 hk2 room2; omega)) only [setMem_ne]
